@@ -367,12 +367,6 @@ Qed.
 
 (** * Labels *)
 
-(** Contract of [np.argsort]: the answer is a permutation of the positions that sorts the input. *)
-Definition argsort_ok (argsort : list Z -> list nat) : Prop :=
-  forall l, Permutation (argsort l) (seq 0 (length l)) /\
-            forall a b, a <= b -> b < length l ->
-                        (nth (nth a (argsort l) 0%nat) l 0 <= nth (nth b (argsort l) 0%nat) l 0)%Z.
-
 Lemma map_nth_seq {A} (l : list A) d : map (fun i => nth i l d) (seq 0 (length l)) = l.
 Proof.
   induction l as [|a l IH]; simpl; [reflexivity|]. f_equal.
@@ -405,7 +399,7 @@ Proof.
   assert (E : (if sort then map (fun i => nth i (map snd st) []) (argsort (map (fun c => (- Z.of_nat (length c))%Z) (map snd st)))
                else map snd st) =
               map snd (if sort then map (fun i => nth i st (0, [])) (argsort (map (fun c => (- Z.of_nat (length c))%Z) (map snd st))) else st)).
-  { destruct sort; [|reflexivity]. rewrite map_map. apply map_ext. intros i.
+  { destruct sort; [|reflexivity]. etransitivity; [|symmetry; apply map_map]. apply map_ext. intros i.
     exact (map_nth snd st (0, []) i). }
   rewrite E in H. clear E.
   destruct ret.
@@ -443,4 +437,269 @@ Proof.
     + assert (E : memn v c = true) by now apply memn_In. rewrite E. lia.
     + intros c' Hc' Hvc'. apply (Hdisj v Hv). apply in_concat. now exists c'.
   - rewrite (IH Hndcs l v (S b)); [lia | lia | exact Hv].
+Qed.
+
+Lemma nth_map_seq {A} (f : nat -> A) n v d : v < n -> nth v (map f (seq 0 n)) d = f v.
+Proof.
+  intros H. rewrite (nth_indep _ d (f 0)) by (now rewrite map_length, seq_length).
+  rewrite map_nth, seq_nth by assumption. reflexivity.
+Qed.
+
+Lemma labels_of_nth n cs v : v < n -> nth v (labels_of n cs) 0 = label_of cs 0 v 0.
+Proof. intros H. unfold labels_of. now rewrite nth_map_seq. Qed.
+
+Lemma NoDup_concat_In {A} (cs : list (list A)) c : NoDup (concat cs) -> In c cs -> NoDup c.
+Proof.
+  induction cs as [|c' cs IH]; simpl; [tauto|]. intros H [->|Hc].
+  - now apply NoDup_app_remove_aux in H.
+  - apply NoDup_app_remove_aux in H. apply IH; tauto.
+Qed.
+
+Lemma cpart_clusters n D pst : cpart n D pst ->
+  NoDup (concat (map snd pst)) /\
+  (forall v, v < n -> exists l, l < length pst /\ In v (nth l (map snd pst) [])) /\
+  (forall l v, l < length pst -> In v (nth l (map snd pst) []) -> v < n) /\
+  (forall l, l < length pst ->
+     nth l (map snd pst) [] = leaves n D (fst (nth l pst (0, []))) /\ nth l (map snd pst) [] <> []).
+Proof.
+  intros (Hnd & Hcl & Hperm). split; [|split; [|split]].
+  - symmetry in Hperm. exact (Permutation_NoDup Hperm (seq_NoDup n 0)).
+  - intros v Hv. assert (Hin : In v (concat (map snd pst))).
+    { symmetry in Hperm. apply (Permutation_in _ Hperm). apply in_seq. lia. }
+    apply in_concat in Hin. destruct Hin as [c [Hc Hvc]].
+    destruct (In_nth _ _ [] Hc) as [l [Hl El]]. rewrite map_length in Hl. exists l. split; [exact Hl|]. now rewrite El.
+  - intros l v Hl Hv. assert (Hin : In v (concat (map snd pst))).
+    { apply in_concat. exists (nth l (map snd pst) []). split; [|exact Hv]. apply nth_In. now rewrite map_length. }
+    apply (Permutation_in _ Hperm) in Hin. apply in_seq in Hin. lia.
+  - intros l Hl. change (@nil nat) with (snd (0, @nil nat)) at 1 3. rewrite map_nth.
+    assert (Hin : In (nth l pst (0, [])) pst) by now apply nth_In.
+    destruct (nth l pst (0, [])) as [k c] eqn:E. simpl. exact (Hcl k c Hin).
+Qed.
+
+Lemma cpart_labels n D pst : cpart n D pst ->
+  let labels := labels_of n (map snd pst) in
+  length labels = n /\
+  (forall v, v < n -> nth v labels 0 < length pst) /\
+  (forall l v, l < length pst -> v < n ->
+     (nth v labels 0 = l <-> In v (leaves n D (fst (nth l pst (0, [])))))) /\
+  (forall l, l < length pst -> exists v, v < n /\ nth v labels 0 = l).
+Proof.
+  intros Hc. destruct (cpart_clusters n D pst Hc) as (Hnd & Hcov & Hlt & Hleaves). simpl.
+  assert (Hlab : forall l v, l < length pst -> In v (nth l (map snd pst) []) -> nth v (labels_of n (map snd pst)) 0 = l).
+  { intros l v Hl Hv. rewrite labels_of_nth by (eapply Hlt; eassumption).
+    rewrite (label_of_spec _ Hnd l v 0 0); [reflexivity | now rewrite map_length | exact Hv]. }
+  split; [|split; [|split]].
+  - unfold labels_of. now rewrite map_length, seq_length.
+  - intros v Hv. destruct (Hcov v Hv) as [l [Hl Hin]]. now rewrite (Hlab l v Hl Hin).
+  - intros l v Hl Hv. destruct (Hleaves l Hl) as [El _]. rewrite <- El. split.
+    + intros E. destruct (Hcov v Hv) as [l' [Hl' Hin]]. rewrite (Hlab l' v Hl' Hin) in E. now subst l'.
+    + intros Hin. now apply Hlab.
+  - intros l Hl. destruct (Hleaves l Hl) as [_ Hne].
+    destruct (nth l (map snd pst) []) as [|v c] eqn:E; [congruence|].
+    assert (Hin : In v (nth l (map snd pst) [])) by (rewrite E; now left).
+    exists v. split; [eapply Hlt; eassumption | now apply Hlab].
+Qed.
+
+Lemma count_occ_map_filter (f : nat -> nat) L l :
+  count_occ Nat.eq_dec (map f L) l = length (filter (fun v => Nat.eqb (f v) l) L).
+Proof.
+  induction L as [|a L IH]; simpl; [reflexivity|].
+  destruct (Nat.eq_dec (f a) l) as [E|E].
+  - apply Nat.eqb_eq in E. rewrite E. simpl. now rewrite IH.
+  - apply Nat.eqb_neq in E. now rewrite E.
+Qed.
+
+Lemma cpart_sizes n D pst l : cpart n D pst -> l < length pst ->
+  cluster_size (labels_of n (map snd pst)) l = length (nth l (map snd pst) []).
+Proof.
+  intros Hc Hl. destruct (cpart_clusters n D pst Hc) as (Hnd & Hcov & Hlt & Hleaves).
+  destruct (cpart_labels n D pst Hc) as (_ & _ & Hiff & _).
+  unfold cluster_size, labels_of. rewrite count_occ_map_filter. apply Permutation_length.
+  apply NoDup_Permutation.
+  - apply NoDup_filter, seq_NoDup.
+  - apply (NoDup_concat_In _ _ Hnd). apply nth_In. now rewrite map_length.
+  - intros v. rewrite filter_In, in_seq, Nat.eqb_eq. destruct (Hleaves l Hl) as [El _]. rewrite El. split.
+    + intros [Hv E]. apply Hiff; [assumption | lia |]. now rewrite labels_of_nth by lia.
+    + intros Hin. assert (Hv : v < n) by (apply (Hlt l v Hl); now rewrite El).
+      split; [lia|]. apply Hiff in Hin; [|assumption|assumption]. now rewrite labels_of_nth in Hin by lia.
+Qed.
+
+Lemma subtree_partition_num n D labels ids :
+  subtree_partition n D labels ids -> num_clusters labels = length ids.
+Proof.
+  intros (Hlen & Hlt & _ & Hsur). unfold num_clusters.
+  rewrite <- (seq_length (length ids) 0). apply Permutation_length, NoDup_Permutation.
+  - apply NoDup_nodup.
+  - apply seq_NoDup.
+  - intros x. rewrite nodup_In, in_seq. split.
+    + intros Hin. destruct (In_nth _ _ 0 Hin) as [v [Hv E]]. rewrite Hlen in Hv. specialize (Hlt v Hv). lia.
+    + intros [_ Hx]. destruct (Hsur x Hx) as [v [Hv E]]. rewrite <- E. apply nth_In. lia.
+Qed.
+
+(** Everything the two cuts share: replay, then get_labels. *)
+Lemma cut_generic guard argsort n D st sort ret labels od :
+  valid n D = true -> argsort_ok argsort ->
+  replay guard n D (init_clusters n) = Ok st ->
+  get_labels argsort D st sort ret = Ok (labels, od) ->
+  let pst := pstate argsort st sort in
+  cpart n D pst /\ Permutation pst st /\ labels = labels_of n (map snd pst) /\
+  subtree_partition n D labels (akeys pst) /\
+  (forall l, l < length pst -> cluster_size labels l = length (snd (nth l pst (0, [])))).
+Proof.
+  intros Hv Hargs Hrep Hlab. simpl.
+  assert (Hids := valid_ids_lt n D Hv). destruct (valid_rows n D Hv) as [Hlen _].
+  assert (Hc : cinv n D (length D) st).
+  { apply (replay_cinv guard n D Hids D [] (init_clusters n) st eq_refl).
+    - apply cinv_init.
+    - simpl. now rewrite Nat.add_0_r. }
+  assert (P := pstate_perm argsort st sort Hargs).
+  assert (Hcp := cinv_cpart n D _ st _ Hc P).
+  apply get_labels_labels in Hlab. rewrite Hlen in Hlab.
+  split; [exact Hcp|]. split; [exact P|]. split; [exact Hlab|].
+  destruct (cpart_labels n D _ Hcp) as (H1 & H2 & H3 & H4). rewrite <- Hlab in *.
+  split.
+  - unfold subtree_partition, akeys. rewrite map_length. split; [exact H1|]. split; [exact H2|]. split; [|exact H4].
+    intros l v Hl Hvn. change 0 with (fst (0, @nil nat)) at 2. rewrite map_nth. now apply H3.
+  - intros l Hl. rewrite Hlab, (cpart_sizes n D _ l Hcp Hl).
+    change (@nil nat) with (snd (0, @nil nat)) at 1. now rewrite map_nth.
+Qed.
+
+Lemma pstate_sorted argsort st : argsort_ok argsort ->
+  let pst := pstate argsort st true in
+  forall a b, a <= b -> b < length pst ->
+    length (snd (nth b pst (0, []))) <= length (snd (nth a pst (0, []))).
+Proof.
+  intros Hargs pst a b Hab Hb. unfold pst, pstate in *.
+  destruct (Hargs (negsizes st)) as [Hperm Hsort].
+  assert (Hlen : length (argsort (negsizes st)) = length st).
+  { apply Permutation_length in Hperm. rewrite seq_length in Hperm. unfold negsizes in Hperm at 2.
+    now rewrite !map_length in Hperm. }
+  rewrite map_length in Hb.
+  assert (Hns : length (negsizes st) = length st) by (unfold negsizes; now rewrite !map_length).
+  specialize (Hsort a b Hab). rewrite Hns, <- Hlen in Hsort. specialize (Hsort Hb).
+  set (idx := argsort (negsizes st)) in *.
+  assert (Hnth : forall i, i < length idx -> nth i (map (fun i => nth i st (0, [])) idx) (0, []) = nth (nth i idx 0) st (0, [])).
+  { intros i Hi. rewrite (nth_indep _ (0, []) (nth 0 st (0, []))) by now rewrite map_length.
+    now rewrite (map_nth (fun i => nth i st (0, []))). }
+  rewrite (Hnth a) by lia. rewrite (Hnth b) by lia.
+  assert (Hin : forall i, i < length idx -> nth i idx 0 < length st).
+  { intros i Hi. assert (H : In (nth i idx 0) idx) by now apply nth_In.
+    apply (Permutation_in _ Hperm) in H. apply in_seq in H. lia. }
+  assert (Hneg : forall j, j < length st -> nth j (negsizes st) 0%Z = (- Z.of_nat (length (snd (nth j st (0%nat, [])))))%Z).
+  { intros j Hj. unfold negsizes. rewrite map_map.
+    rewrite (nth_indep _ 0%Z ((fun x : nat * list nat => (- Z.of_nat (length (snd x)))%Z) (0%nat, []))) by now rewrite map_length.
+    now rewrite (map_nth (fun x : nat * list nat => (- Z.of_nat (length (snd x)))%Z)). }
+  rewrite (Hneg _ (Hin a ltac:(lia))), (Hneg _ (Hin b Hb)) in Hsort. lia.
+Qed.
+
+(** * cut_straight / cut_balanced: clusters are subtrees, labels ordered by size, size cap *)
+Lemma straight_state_inv D0 nc th ret D st :
+  straight_state D0 nc th ret = Ok (D, st) ->
+  cut_input D0 ret = Ok D /\
+  exists cut, cut_height D nc th = Ok cut /\
+              replay (straight_guard cut) (S (length D)) D (init_clusters (S (length D))) = Ok st.
+Proof.
+  unfold straight_state. destruct (cut_input D0 ret) as [D1|] eqn:E1; [|discriminate].
+  destruct (cut_height D1 nc th) as [cut|] eqn:E2; [|discriminate].
+  destruct (replay (straight_guard cut) (S (length D1)) D1 (init_clusters (S (length D1)))) as [st1|] eqn:E3; [|discriminate].
+  intros H. inversion H; subst. split; [reflexivity|]. exists cut. now split.
+Qed.
+
+Lemma cut_straight_inv argsort D0 nc th sort ret labels od :
+  cut_straight argsort D0 nc th sort ret = Ok (labels, od) ->
+  exists D st, straight_state D0 nc th ret = Ok (D, st) /\ get_labels argsort D st sort ret = Ok (labels, od).
+Proof.
+  unfold cut_straight. destruct (straight_state D0 nc th ret) as [[D st]|] eqn:E; [|discriminate].
+  intros H. now exists D, st.
+Qed.
+
+Lemma cut_balanced_inv argsort D m sort ret labels od :
+  cut_balanced argsort D m sort ret = Ok (labels, od) ->
+  2 <= m <= S (length D) /\
+  exists st, replay (balanced_guard m) (S (length D)) D (init_clusters (S (length D))) = Ok st /\
+             get_labels argsort D st sort ret = Ok (labels, od).
+Proof.
+  unfold cut_balanced, balanced_state.
+  destruct (Nat.ltb m 2 || Nat.ltb (S (length D)) m) eqn:E; [discriminate|].
+  apply orb_false_iff in E. destruct E as [E1 E2]. apply Nat.ltb_ge in E1, E2.
+  destruct (replay (balanced_guard m) (S (length D)) D (init_clusters (S (length D)))) as [st|] eqn:E3; [|discriminate].
+  intros H. split; [lia|]. now exists st.
+Qed.
+
+Lemma sorted_from_generic argsort st labels pst :
+  argsort_ok argsort -> pst = pstate argsort st true ->
+  (forall l, l < length pst -> cluster_size labels l = length (snd (nth l pst (0, [])))) ->
+  sizes_sorted labels (length pst).
+Proof.
+  intros Hargs -> Hsz a b Hab Hb. rewrite (Hsz a) by lia. rewrite (Hsz b) by lia.
+  now apply pstate_sorted.
+Qed.
+
+Lemma cut_straight_subtrees argsort n D0 D nc th sort ret labels od :
+  cut_input D0 ret = Ok D -> valid n D = true -> argsort_ok argsort ->
+  cut_straight argsort D0 nc th sort ret = Ok (labels, od) ->
+  exists ids, subtree_partition n D labels ids /\ (sort = true -> sizes_sorted labels (length ids)).
+Proof.
+  intros Hin Hv Hargs Hcut. apply cut_straight_inv in Hcut. destruct Hcut as (D' & st & Hst & Hlab).
+  apply straight_state_inv in Hst. destruct Hst as (Hin' & cut & _ & Hrep).
+  rewrite Hin in Hin'. inversion Hin'; subst D'. destruct (valid_rows n D Hv) as [Hlen _]. rewrite Hlen in Hrep.
+  destruct (cut_generic _ argsort n D st sort ret labels od Hv Hargs Hrep Hlab) as (_ & _ & _ & Hsub & Hsz).
+  exists (akeys (pstate argsort st sort)). split; [exact Hsub|]. intros ->.
+  unfold akeys. rewrite map_length. eapply sorted_from_generic; [exact Hargs | reflexivity | exact Hsz].
+Qed.
+
+Lemma replay_cap m n D : ids_lt n D ->
+  forall rows done st st', D = done ++ rows -> cinv n D (length done) st ->
+    Forall (fun kc : nat * list nat => length (snd kc) <= m) st ->
+    replay (balanced_guard m) (n + length done) rows st = Ok st' ->
+    Forall (fun kc : nat * list nat => length (snd kc) <= m) st'.
+Proof.
+  intros Hids. induction rows as [|r rows IH]; intros done st st' HD Hinv Hall Hrun; simpl in Hrun.
+  - now inversion Hrun; subst.
+  - destruct (cut_step (balanced_guard m) (n + length done) r st) as [st1|] eqn:Hs; [|discriminate].
+    assert (Hr : nth_error D (length done) = Some r) by (rewrite HD; apply nth_error_app_length).
+    assert (H1 := cut_step_cinv _ n D (length done) r st st1 Hids Hr Hinv Hs).
+    apply (IH (done ++ [r]) st1 st').
+    + now rewrite <- app_assoc.
+    + rewrite app_length. simpl. now rewrite Nat.add_1_r.
+    + clear IH Hrun H1. unfold cut_step in Hs.
+      destruct (alookup (r_left r) st) as [ci|] eqn:Hi; [|inversion Hs; now subst].
+      destruct (alookup (r_right r) st) as [cj|] eqn:Hj; [|inversion Hs; now subst].
+      destruct (balanced_guard m r ci cj) eqn:Hg; [|inversion Hs; now subst].
+      destruct (alookup (r_right r) (aremove (r_left r) st)) as [cj'|] eqn:Hj'; [|discriminate].
+      inversion Hs; subst st1. rewrite Forall_forall in *. intros x Hx. apply in_app_iff in Hx.
+      destruct Hx as [Hx|[Hx|[]]].
+      * apply Hall. now apply aremove_In, aremove_In in Hx.
+      * subst x. simpl. unfold balanced_guard in Hg. apply Nat.leb_le in Hg.
+        assert (E : cj' = cj).
+        { destruct Hinv as (Hnd & _). destruct (Nat.eq_dec (r_right r) (r_left r)) as [E|E].
+          - rewrite E, alookup_aremove_eq in Hj' by assumption. discriminate.
+          - rewrite alookup_aremove_neq in Hj' by assumption. congruence. }
+        subst. now rewrite app_length.
+    + rewrite app_length. simpl. now rewrite Nat.add_1_r, <- plus_n_Sm.
+Qed.
+
+Lemma cut_balanced_subtrees argsort n D m sort ret labels od :
+  valid n D = true -> argsort_ok argsort ->
+  cut_balanced argsort D m sort ret = Ok (labels, od) ->
+  exists ids, subtree_partition n D labels ids /\ (sort = true -> sizes_sorted labels (length ids)) /\
+              (forall l, cluster_size labels l <= m).
+Proof.
+  intros Hv Hargs Hcut. apply cut_balanced_inv in Hcut. destruct Hcut as (Hm & st & Hrep & Hlab).
+  destruct (valid_rows n D Hv) as [Hlen _]. rewrite Hlen in Hrep.
+  destruct (cut_generic _ argsort n D st sort ret labels od Hv Hargs Hrep Hlab) as (_ & P & _ & Hsub & Hsz).
+  exists (akeys (pstate argsort st sort)). split; [exact Hsub|]. split.
+  - intros ->. unfold akeys. rewrite map_length. eapply sorted_from_generic; [exact Hargs | reflexivity | exact Hsz].
+  - assert (Hcap : Forall (fun kc : nat * list nat => length (snd kc) <= m) st).
+    { apply (replay_cap m n D (valid_ids_lt n D Hv) D [] (init_clusters n) st eq_refl).
+      - apply cinv_init.
+      - unfold init_clusters. apply Forall_forall. intros x Hx. apply in_map_iff in Hx.
+        destruct Hx as [i [<- _]]. simpl. lia.
+      - simpl. now rewrite Nat.add_0_r. }
+    intros l. destruct (Nat.lt_ge_cases l (length (pstate argsort st sort))) as [Hl|Hl].
+    + rewrite (Hsz l Hl). rewrite Forall_forall in Hcap. apply Hcap.
+      apply (Permutation_in _ P). now apply nth_In.
+    + unfold cluster_size. rewrite (proj1 (count_occ_not_In Nat.eq_dec labels l)); [lia|].
+      intros Hin. destruct Hsub as (Hl1 & Hl2 & _). destruct (In_nth _ _ 0 Hin) as [v [Hv' E]].
+      rewrite Hl1 in Hv'. specialize (Hl2 v Hv'). unfold akeys in Hl2. rewrite map_length in Hl2. lia.
 Qed.
